@@ -84,6 +84,47 @@ def corridor_cases(tier, rng, kind):
         s = (rng.randint(rs[0][0], rs[0][2]), rng.choice([rs[0][1], rng.randint(rs[0][1], rs[0][3])]))
         e = (rng.randint(rs[-1][0], rs[-1][2]), rng.choice([rs[-1][3], rng.randint(rs[-1][1], rs[-1][3])]))
         yield {"kind": kind, "rects": rs, "s": list(s), "e": list(e), "den": 1}
+    # grazing geodesics: the straight line from start to end passes a reflex corner on the outside by 0.1 .. 0.5 units, so
+    # the shortest path bends there by a fraction of a degree and is barely longer than its chord (tenth-unit grid)
+    for _ in range(2500 if tier == "quick" else 30000):
+        k = rng.choice([2, 2, 3, 4])
+        W = rng.choice([100, 200, 400, 600])
+        rs, top = [], 0
+        L, R = sorted(rng.sample(range(0, W + 1, 10), 2))
+        for i in range(k):
+            h = rng.choice([50, 100, 200, 300])
+            rs.append([L, top, R, top + h])
+            top += h
+            for _try in range(50):
+                L2, R2 = sorted(rng.sample(range(0, W + 1, 10), 2))
+                if max(L, L2) + 10 <= min(R, R2) and (L2 != L or R2 != R):
+                    L, R = L2, R2
+                    break
+        corners = []
+        for t in range(k - 1):
+            a, b = max(rs[t][0], rs[t + 1][0]), min(rs[t][2], rs[t + 1][2])
+            if not a < b:
+                corners = []
+                break
+            if rs[t][0] != rs[t + 1][0]:
+                corners.append((a, rs[t][3], -1))
+            if rs[t][2] != rs[t + 1][2]:
+                corners.append((b, rs[t][3], +1))
+        if not corners:
+            continue
+        cx, cy, side = rng.choice(corners)
+        off = rng.choice([1, 2, 3, 5])                      # tenths of a unit, on the outside of the corner
+        den = 10
+        sx = rng.randint(rs[0][0] * den, rs[0][2] * den)
+        sy = rng.randint(rs[0][1] * den, min(rs[0][3], cy - 1) * den) if cy > rs[0][1] else rs[0][1] * den
+        px, py = cx * den + side * off, cy * den
+        if py <= sy:
+            continue
+        ey = rng.randint(max(rs[-1][1] * den, py + 1), rs[-1][3] * den)
+        ex = sx + (px - sx) * (ey - sy) // (py - sy)
+        if not (rs[-1][0] * den <= ex <= rs[-1][2] * den):
+            continue
+        yield {"kind": kind, "rects": [[v * den for v in r] for r in rs], "s": [sx, sy], "e": [ex, ey], "den": den}
     # random larger corridors (k up to 12), integer corners up to 40
     for _ in range(1500 if tier == "quick" else 25000):
         k = rng.randint(2, 12)
